@@ -175,12 +175,17 @@ func init() {
 				continue
 			}
 			// reads of the committed database: index into b.db.db, or reader calls on b.db
-			var reads []ssa.Instruction
+			var reads, scans []ssa.Instruction
 			allInstrs(f, func(in ssa.Instruction) {
 				switch x := in.(type) {
 				case *ssa.Lookup:
 					if strings.HasSuffix(term(x.X), "b.db.db") {
 						reads = append(reads, in)
+					}
+				case *ssa.Range:
+					// a scan of the committed map (seeded change C15-L collects the keys of a range delete this way)
+					if strings.HasSuffix(term(x.X), "b.db.db") {
+						scans = append(scans, in)
 					}
 				case *ssa.Call:
 					if cal := x.Call.StaticCallee(); cal != nil && cal.Signature.Recv() != nil && isNamed(cal.Signature.Recv().Type(), "db/memory", "Database") {
@@ -190,7 +195,25 @@ func init() {
 					}
 				}
 			})
-			if len(reads) == 0 {
+			for _, sc := range scans {
+				nb++
+				// a scan sees committed keys only; it is a view of the batch only if the same method also walks its pending writes
+				merged := false
+				allInstrs(f, func(in ssa.Instruction) {
+					switch x := in.(type) {
+					case *ssa.Range:
+						if strings.HasSuffix(term(x.X), "b.writeMap") {
+							merged = true
+						}
+					case *ssa.Lookup:
+						if strings.HasSuffix(term(x.X), "b.writeMap") {
+							merged = true
+						}
+					}
+				})
+				c.check(merged, "batch-view", "memory.batch."+m+" (scan)", p.Pos(posOf(sc, f)), "the scan of the committed map is merged with the batch's pending writes", "the in-memory batch scans the committed database's map without looking at its own pending writes: a key Put earlier in the same batch is invisible to the scan (a covering DeleteRange leaves it behind, unlike Pebble)")
+			}
+			if len(reads) == 0 && len(scans) == 0 {
 				nb++
 				c.ok("batch-view", "memory.batch."+m, p.Pos(fnPos(f)), "does not read the committed database directly (uses the batch's own view)")
 				continue
